@@ -52,7 +52,7 @@ def configs(tier):
                         if tdt == 'int32' else ['uint32'] * P,
                         'tpl_dtypes': [['float32', 'float64'][(k + p + (tdt == 'uint32')) % 2] if k % 2 else
                                        ['float32', 'float64'][k % 4 // 2] for p in range(P)],
-                        'optional_matrices': k % 3 == 0})
+                        'optional_matrices': k % 3 == 0, 'unused_last_template': k % 2 == 0})
     return out
 
 
